@@ -133,7 +133,29 @@ def _unwrap(r: Any) -> Any:
     return r
 
 
+def check_sequence(case: Dict[str, Any]) -> Outcome:
+    """The same sequence of validations in one FRESH process per backend: state leaking between
+    model classes (caches keyed too coarsely) shows up as an order-dependent disagreement."""
+    out = Outcome(nontrivial=True, classes=("kind:sequence", f"len:{len(case['seq'])}"))
+    wp, wf = Worker(False, True), Worker(True, True)
+    try:
+        req = {"op": "validate", "cases": [(t, "validate", d) for t, d in case["seq"]]}
+        rps, rfs = wp.request(req), wf.request(req)
+    finally:
+        wp.close()
+        wf.close()
+    for (t, d), rp, rf in zip(case["seq"], rps, rfs):
+        rp, rf = _unwrap(rp), _unwrap(rf)
+        sig, detail = classify_diff(t, d, rp, rf)
+        if sig:
+            out.fail(sig + ":in-sequence", f"sequence {[x[0].split(':')[-1] for x in case['seq']]}: {detail}")
+            break
+    return out
+
+
 def check(case: Dict[str, Any]) -> Outcome:
+    if "seq" in case:
+        return check_sequence(case)
     out = Outcome()
     target, how, data = case["target"], case.get("how", "validate"), case["data"]
     wp, wf = workers()
@@ -281,13 +303,31 @@ def job_envelopes(col: Collector, seed: int, tier: str, shard: int, n: int) -> N
             col.record(case, check(case))
 
 
-JOBS = {"models": job_models, "envelopes": job_envelopes}
+@st.composite
+def sequence_cases(draw):
+    by: Dict[str, List[str]] = {}
+    for t in models():
+        by.setdefault(t.split(":")[-1], []).append(t)
+    pool = [t for v in by.values() if len(v) > 1 for t in v]
+    others = [t for t in sorted(models()) if t not in pool]
+    k = draw(st.integers(2, 5))
+    targets = [draw(st.sampled_from(pool)) for _ in range(k)]
+    if draw(st.booleans()):
+        targets.insert(draw(st.integers(0, len(targets))), draw(st.sampled_from(others)))
+    return {"seq": [[t, draw(wire_strategy(models()[t], 2))] for t in targets]}
+
+
+def job_sequences(col: Collector, seed: int, tier: str, shard: int, n: int) -> None:
+    hyp_run(col, seed * 1000 + 950 + shard, sequence_cases(), check, n)
+
+
+JOBS = {"models": job_models, "envelopes": job_envelopes, "sequences": job_sequences}
 
 
 def jobs(tier: str):
     if tier == "quick":
-        return [("models", {"shard": s, "nshards": 6, "n": 120}) for s in range(6)] + [("envelopes", {"shard": s, "n": 500}) for s in range(2)]
-    return [("models", {"shard": s, "nshards": 7, "n": 2500}) for s in range(7)] + [("envelopes", {"shard": s, "n": 15000}) for s in range(1)]
+        return [("models", {"shard": s, "nshards": 6, "n": 120}) for s in range(6)] + [("envelopes", {"shard": s, "n": 500}) for s in range(2)] + [("sequences", {"shard": s, "n": 8}) for s in range(4)]
+    return [("models", {"shard": s, "nshards": 7, "n": 2500}) for s in range(7)] + [("envelopes", {"shard": s, "n": 15000}) for s in range(1)] + [("sequences", {"shard": s, "n": 250}) for s in range(4)]
 
 
 def shrink(signature: str, seed: int):
